@@ -19,6 +19,13 @@ E1 (bounded exhaustive enumeration).  One *unit* = one mesh pattern; on it, in a
   lookups  shade, is_shaded (cells and all rectangles), is_pointfree (all rectangles),
            non_pointless_boxes, has_anchored_point against geometric definitions
   render   ascii_plot(cell size) read back by an independent parser gives the same pattern
+  fresh    every operation whose result is (or holds) a mutable container - can_shade,
+           can_simul_shade, its alias can_shade2, shadable_boxes (dict of lists), non_pointless_boxes,
+           and add_point / add_increase / add_decrease / shade should their results ever hold one:
+           the caller damages the returned object in place at every nesting level (append a
+           sentinel; then clear) and asks again on the same object, on a new equal object and
+           through the alias; every later answer must equal the first one, must not hold the
+           sentinel, and a licence that appeared is checked against the containment oracle
 
 All semantic comparisons use the reference only (never the library's own containment); the library
 supplies just the answer under test.  Replays re-run the whole unit (after a warm-up unit, so that
@@ -35,7 +42,7 @@ from ..core import Partial
 PROPERTY = "C18"
 LEVEL = "exploration"
 
-ALL_SUBS = ("lemma1", "simul", "table", "addpoint", "addpair", "lookups", "render")
+ALL_SUBS = ("lemma1", "simul", "table", "addpoint", "addpair", "lookups", "render", "fresh")
 
 # filled by run()/replay() before any unit is evaluated (inherited by forked workers)
 TEXTS = []          # S<=N
@@ -543,6 +550,74 @@ def eval_unit(part, lib, patt, shm, cfg, warm=None):
                 viol("render", {"cell_size": s},
                      {"plot": txt.split("\n"), "reads as": [list(back[0]), sorted(back[1])]})
 
+    # ---- fresh ----------------------------------------------------------------------------
+    if "fresh" in subs:
+        def new_equal():
+            return lib.MeshPatt(lib.Perm(patt), sorted(shading))
+
+        adjacent = [(a, b) for a in cells for b in cells
+                    if abs(a[0] - b[0]) + abs(a[1] - b[1]) == 1]
+        free = [c for c in cells if c not in shading]
+        # (call name, case keys, how to ask an object, extra routes, mask of the cells licensed)
+        queries = []
+        for c in cells:
+            queries.append(("can_shade", {"cell": c}, lambda o, c=c: o.can_shade(c), (), X.cbit(k, c)))
+        for (a, b) in adjacent:
+            queries.append(("can_simul_shade", {"cells": [a, b]},
+                            lambda o, a=a, b=b: o.can_simul_shade(a, b),
+                            (("can_shade2 on a new equal object", lambda a=a, b=b: new_equal().can_shade2(a, b)),),
+                            X.cbit(k, a) | X.cbit(k, b)))
+            queries.append(("can_shade2", {"cells": [a, b]},
+                            lambda o, a=a, b=b: o.can_shade2(a, b),
+                            (("can_simul_shade on a new equal object",
+                              lambda a=a, b=b: new_equal().can_simul_shade(a, b)),),
+                            X.cbit(k, a) | X.cbit(k, b)))
+        queries.append(("shadable_boxes", {}, lambda o: o.shadable_boxes(), (), 0))
+        queries.append(("non_pointless_boxes", {}, lambda o: o.non_pointless_boxes(), (), 0))
+        for c in free:
+            queries.append(("add_point", {"cell": c}, lambda o, c=c: o.add_point(c), (), 0))
+            queries.append(("add_increase", {"cell": c}, lambda o, c=c: o.add_increase(c), (), 0))
+            queries.append(("add_decrease", {"cell": c}, lambda o, c=c: o.add_decrease(c), (), 0))
+        for c in cells:
+            queries.append(("shade", {"cell": c}, lambda o, c=c: o.shade(c), (), 0))
+
+        def fviol(q, detail):
+            viol("fresh", dict(q[1], call=q[0]), detail)
+
+        first = {}
+        for qi, q in enumerate(queries):
+            try:
+                first[qi] = X.norm_result(q[2](p))
+            except Exception as exc:  # noqa
+                fviol(q, {"exception": repr(exc)})
+                continue
+            part.add(1, 0)
+            if X.holds_sentinel(first[qi]):
+                fviol(q, {"the answer holds a value that only a caller can have put there": first[qi]})
+        for kind in ("append", "clear"):
+            for qi, q in enumerate(queries):
+                if qi not in first:
+                    continue
+                try:
+                    r = q[2](p)
+                    if not X.damage(r, kind):
+                        continue                      # nothing mutable in the result
+                    routes = (("same object", lambda q=q: q[2](p)),
+                              ("new equal object", lambda q=q: q[2](new_equal()))) + q[3]
+                    for rname, again in routes:
+                        r2 = again()
+                        n2 = X.norm_result(r2)
+                        part.add(1, 1)
+                        if n2 != first[qi] or X.holds_sentinel(n2):
+                            det = {"the caller damaged an earlier answer in place by": kind,
+                                   "asked again on": rname, "first answer": first[qi], "now": n2}
+                            if q[4] and isinstance(r2, list) and r2 and not first[qi][1]:
+                                det["now licensed; contains p but not p.shade(cells)"] = unsound(q[4])
+                            fviol(q, det)
+                        X.damage(r2, kind)
+                except Exception as exc:  # noqa
+                    fviol(q, {"exception": repr(exc), "damage": kind})
+
 
 # --------------------------------------------------------------------------------------------
 # universes and shards
@@ -707,14 +782,20 @@ def run(ctx, only=None):
                       "kw": True, "validate_ref": True}
     shards = make_shards(small, "mesh<=2", 8)
     fam3 = family(3, 2, 14)
-    CFG["family3"] = {"subs": subs, "pairs": "adjacent" if quick else "all", "cell_sizes": (1, 2),
+    CFG["family3"] = {"subs": subs - {"fresh"} if quick else subs,
+                      "pairs": "adjacent" if quick else "all", "cell_sizes": (1, 2),
                       "N": N, "maxk": maxk, "validate_ref": True}
     shards += make_shards(fam3, "family3", 16)
     bounds = {
         "texts": "S<=%d (%d permutations)" % (N, len(TEXTS)),
         "mesh<=2": "all %d mesh patterns of length <= 2; all cells; all ordered pairs of cells (incl. "
                    "equal and non-adjacent); 5 directions positional and by keyword + default "
-                   "argument; shade with <=2 cells; all rectangles; cell sizes 1,2,3 + default"
+                   "argument; shade with <=2 cells; all rectangles; cell sizes 1,2,3 + default; fresh: every "
+                   "result holding a mutable container (can_shade on all cells, can_simul_shade and "
+                   "can_shade2 on both orders of all adjacent pairs, shadable_boxes, non_pointless_boxes; "
+                   "add_point/add_increase/add_decrease/shade results are inspected too) is damaged in "
+                   "place at every nesting level (append a sentinel, then clear) and asked again on the "
+                   "same object, a new equal object and through the alias"
                    % sum(len(v) for v in small.values()),
         "family3": "%d patterns of length 3: every shading with <=2 or >=14 cells, every union of full "
                    "rows/columns, code-base shadings; same queries (%s; directions positional), cell "
@@ -740,7 +821,8 @@ def run(ctx, only=None):
             bounds["family3b"] = ("%d more patterns of length 3 (3 or 13 shaded cells): shadable_boxes "
                                   "(checked against the per-cell tests), insertions, lookups, rendering" % sum(len(v) for v in fam3b.values()))
         fam4 = family(4, 1, 24, rowcol=False)
-        CFG["family4"] = {"subs": frozenset(s for s in subs if s != "addpair"), "pairs": "adjacent",
+        CFG["family4"] = {"subs": frozenset(s for s in subs if s not in ("addpair", "fresh")),
+                          "pairs": "adjacent",
                           "cell_sizes": (1,), "N": N, "maxk": maxk}
         shards += make_shards(fam4, "family4", 8)
         bounds["family4"] = ("%d patterns of length 4: <=1 or >=24 shaded cells + code-base shadings; "
